@@ -1,7 +1,7 @@
 // C07: tree arithmetic is the point-wise lifting of affine arithmetic. All ownership variants.
 #[path = "../common.rs"]
 mod common;
-use affinitree::linalg::affine::AffFunc;
+use affinitree::linalg::affine::{AffFunc, Polytope};
 use affinitree::pwl::afftree::AffTree;
 use common::*;
 use ndarray::{Array1, Array2};
@@ -29,6 +29,38 @@ fn divisor_tree(r: &mut Rng, n: usize, m: usize, cfg: TreeCfg) -> AffTree<2> {
     for i in idxs {
         let f = gen_divisor(r, m, n);
         t.update_node(i, f).unwrap();
+    }
+    t
+}
+/// a from_poly chain: decisions with a single terminal (partial, undefined outside the polytope) or with an
+/// else-branch; rows drawn so that the polytope is sometimes empty / thin
+fn chain_tree(r: &mut Rng, n: usize, m: usize, div: bool) -> AffTree<2> {
+    let rows = 1 + r.below(3);
+    let mut a = gen_mat(r, rows, n, 4);
+    for i in 0..rows {
+        if a.row(i).iter().all(|v| *v == 0.0) {
+            a[[i, r.below(n)]] = 1.0;
+        }
+    }
+    let poly = Polytope::from_mats(a, gen_vec(r, rows, 6));
+    let f = if div { gen_divisor(r, m, n) } else { gen_aff(r, m, n, 6) };
+    let g = if r.chance(1, 3) { Some(if div { gen_divisor(r, m, n) } else { gen_aff(r, m, n, 6) }) } else { None };
+    AffTree::<2>::from_poly(poly, f, g.as_ref()).unwrap()
+}
+/// operand: random tree, or a from_poly chain; sometimes with cached feasibility states from an earlier elimination
+fn gen_operand(r: &mut Rng, n: usize, m: usize, cfg: TreeCfg, div: bool) -> AffTree<2> {
+    let mut t = match r.below(4) {
+        0 => chain_tree(r, n, m, div),
+        _ => {
+            if div {
+                divisor_tree(r, n, m, cfg)
+            } else {
+                gen_tree(r, n, m, cfg)
+            }
+        }
+    };
+    if r.chance(1, 4) {
+        let _ = catch(AssertUnwindSafe(|| t.infeasible_elimination()));
     }
     t
 }
@@ -123,10 +155,10 @@ fn one_case(r: &mut Rng, id: usize, out: &mut String) {
     let ops = ["add", "sub", "mul", "div"];
     let op = ops[r.below(4)];
     let kind = r.below(10);
-    let a: AffTree<2> = gen_tree(r, n, m, cfg);
+    let a: AffTree<2> = gen_operand(r, n, m, cfg, false);
     if kind < 6 {
         let bm = if r.chance(1, 15) { m + 1 } else { m };
-        let b: AffTree<2> = if op == "div" { divisor_tree(r, n, bm, cfg_b) } else { gen_tree(r, n, bm, cfg_b) };
+        let b: AffTree<2> = gen_operand(r, n, bm, cfg_b, op == "div");
         let vs = binop(op, &a, &b);
         // evaluate() of the first variant on sampled points
         let pts = match catch(AssertUnwindSafe(|| match op {
